@@ -534,9 +534,12 @@ func (s *session) doAdd(op *opSpec) {
 		k := slotKey{t.from.addr, t.nonce}
 		known := t.value.Sign() >= 0 && pre.has(t.hash)
 		if known && uncertain[k] {
-			// a queued non-local transaction in an expiry history: it may or may not still be there
+			// a queued non-local transaction in an expiry history: it may or may not still be
+			// there. If it has expired, the resubmission is judged like a new transaction, and an
+			// earlier transaction of the same call may meanwhile hold its nonce slot.
 			allClearCut = false
-			if err != nil && cls != rjKnown {
+			allowed := append(clearCutRejections(t, head, s.gasPrice, isLocal, false), rjKnown, rjPrice, "pool-full", "replace-underpriced")
+			if err != nil && !in(cls, allowed) {
 				s.fail(&finding{"admission:known:wrong-error", fmt.Sprintf("resubmission of %v: %v", t, err)})
 				return
 			}
